@@ -244,11 +244,12 @@ def dump_ast(inst_cpp, filt, repo_include, cache_dir=None, extra=()):
         h = hashlib.sha256()
         h.update(' '.join(cmd).encode())
         h.update(open(inst_cpp, 'rb').read())
-        for root, _, files in sorted(os.walk(repo_include)):
-            for f in sorted(files):
-                p = os.path.join(root, f)
-                h.update(p.encode())
-                h.update(open(p, 'rb').read())
+        for inc in [repo_include] + [x[2:] for x in extra if x.startswith('-I')]:
+            for root, _, files in sorted(os.walk(inc)):
+                for f in sorted(files):
+                    p = os.path.join(root, f)
+                    h.update(p.encode())
+                    h.update(open(p, 'rb').read())
         prefix = re.sub(r'[^A-Za-z0-9]+', '_', os.path.basename(inst_cpp) + '__' + filt) + '__'
         key = os.path.join(cache_dir, prefix + h.hexdigest()[:24] + '.json')
         if os.path.exists(key):
